@@ -7,6 +7,7 @@ import (
 	"testing"
 
 	"cosmossdk.io/math"
+	cryptotypes "github.com/cosmos/cosmos-sdk/crypto/types"
 	sdk "github.com/cosmos/cosmos-sdk/types"
 	banktypes "github.com/cosmos/cosmos-sdk/x/bank/types"
 	"pgregory.net/rapid"
@@ -101,13 +102,31 @@ func TestC06Rapid(t *testing.T) {
 		stranger := henv.MakeUser("c06-stranger")
 		nd := rapid.IntRange(1, 6).Draw(rt, "deposits")
 		var pend []*pendingDeposit
+		for _, ex := range tc.executors {
+			tc.l2.Fund(ex.Addr, coinOf("stake", 10)) // executors have accounts on L2
+		}
+		hookSeq := map[string]uint64{}
 		for i := 0; i < nd; i++ {
 			to := tc.users[rapid.IntRange(0, len(tc.users)-1).Draw(rt, "to")].Str
 			if rapid.IntRange(0, 3).Draw(rt, "badto") == 0 {
 				to = "not-an-address-" + fmt.Sprint(i)
 			}
 			amt := int64(rapid.IntRange(0, 5000).Draw(rt, "amt"))
-			_, p := tc.l1Deposit(tc.users[rapid.IntRange(0, len(tc.users)-1).Draw(rt, "from")], to, coinOf(rapid.SampledFrom([]string{"uinit", "uusdc"}).Draw(rt, "denom"), amt), nil)
+			from := tc.users[rapid.IntRange(0, len(tc.users)-1).Draw(rt, "from")]
+			denom := rapid.SampledFrom([]string{"uinit", "uusdc"}).Draw(rt, "denom")
+			var data []byte
+			if rapid.IntRange(0, 4).Draw(rt, "reentrant") == 0 {
+				// a racing executor: the deposit's hook is a transaction, signed by an authorised executor, that
+				// delivers this very deposit again while it is being processed
+				ex := tc.executors[rapid.IntRange(0, len(tc.executors)-1).Draw(rt, "hookexec")]
+				num, _ := accInfo(tc.l2, ex)
+				seq := uint64(len(pend) + 1) // its own sequence; delivering a later one would be fabricating a deposit
+				inner := opchildtypes.NewMsgFinalizeTokenDeposit(ex.Str, from.Str, to, sdk.NewCoin(tcL2Denom(tc, denom), math.NewInt(amt)), seq, uint64(tc.l1.Ctx.BlockHeight()), denom, nil)
+				data = signTx(tc.l2, []sdk.Msg{inner}, []cryptotypes.PrivKey{ex.Priv}, []uint64{num}, []uint64{hookSeq[ex.Str]}, henv.L2ChainID)
+				hookSeq[ex.Str]++
+				c.Class("deposit-with-reentrant-delivery-hook")
+			}
+			_, p := tc.l1Deposit(from, to, coinOf(denom, amt), data)
 			if p == nil {
 				rt.Fatalf("setup: L1 deposit rejected")
 			}
